@@ -115,7 +115,20 @@ def compare_systems(res, a, b, tag, skip_models=()):
                 continue
             for j in range(ma.n):
                 if not same_value(va[j], vb[j]):
-                    res.violate("roundtrip_value", "%s: %s.%s of device %r is %r, after the round trip %r" % (
+                    # mechanism predicate: NumParam.add enforces a declared sign / non-zero property (replacing the value by the
+                    # default) only for Python floats.  A value that violates the property survives when it arrives as an
+                    # integer (spreadsheet cell "5") and is replaced when it arrives as 5.0 (JSON)
+                    mech = "roundtrip_value"
+                    par = ma.params.get(pname)
+                    try:
+                        x = float(va[j])
+                        prop = getattr(par, "property", {}) or {}
+                        viol = (prop.get("non_zero") and x == 0) or (prop.get("non_positive") and x > 0) or (prop.get("non_negative") and x < 0)
+                        if viol and same_value(vb[j], par.default):
+                            mech = "property_correction_depends_on_numeric_type"
+                    except (TypeError, ValueError):
+                        pass
+                    res.violate(mech, "%s: %s.%s of device %r is %r, after the round trip %r" % (
                         tag, mname, pname, ma.idx.v[j] if hasattr(ma, "idx") else j, va[j], vb[j]), model=mname, param=pname)
                     break
 
@@ -158,6 +171,15 @@ def roundtrip(res, ss_loader, tag, sd):
             os.remove(path)
         try:
             andes.io.dump(a, fmt, full_path=path, overwrite=True)
+            # data files a case refers to by relative path travel with the case file
+            ts = getattr(a, "TimeSeries", None)
+            if ts is not None and ts.n:
+                import shutil
+                for rel in ts.path.v:
+                    src = os.path.join(a.files.case_path or "", str(rel))
+                    if os.path.isfile(src) and not os.path.isabs(str(rel)):
+                        os.makedirs(os.path.dirname(os.path.join(sd, str(rel))) or sd, exist_ok=True)
+                        shutil.copyfile(src, os.path.join(sd, str(rel)))
             b = au.load(path, config_path=rc)
             b.files.case_path = a.files.case_path       # relative paths inside the case (time series files) keep their meaning
         except Exception as e:
